@@ -273,6 +273,64 @@ pub fn run(opts: &Opts) -> i32 {
         sink.case3(&w.request(), &ans, &oracle);
     }
     let _ = std::fs::remove_dir_all(opts.out.join("worlds"));
+    hygiene(opts, &mut sink);
     sink.finish();
     0
+}
+
+
+/// The semantic half: an import behaves like the imported term written in place (in parentheses),
+/// whatever names the importer binds around it and however often the file is imported.
+fn hygiene(opts: &Opts, sink: &mut Sink) {
+    use crate::pipeline::{self, Verdict};
+    let dir = opts.out.join("hygiene");
+    let _ = std::fs::remove_dir_all(&dir);
+    std::fs::create_dir_all(&dir).expect("hygiene dir");
+    // imported terms: closed value computations whose internal names collide with the importer's
+    let libs: [(&str, &str); 5] = [
+        ("plain.zy", "ret 3"),
+        ("let.zy", "let zx = 4 in ret zx"),
+        ("do.zy", "do zx <- ret 5; do zy <- ret zx; ret zy"),
+        ("fn.zy", "(fn zx => ret zx) 6"),
+        ("pair.zy", "let (zx, zy) = (7, 8) in ret zx"),
+    ];
+    for (name, text) in libs {
+        std::fs::write(dir.join(name), format!("{text}\n")).expect("lib");
+    }
+    // importer contexts: HOLE is replaced by the import or by the inlined text
+    let contexts: [(&str, &str); 6] = [
+        ("bare", "do zr <- (HOLE : Ret Int64); ! (process/exit) zr"),
+        ("importer-binds-the-same-names", "let zx = (40 : Int64) in let zy = (50 : Int64) in do zr <- (HOLE : Ret Int64); ! (process/exit) zr"),
+        ("importer-uses-its-own-binding-after", "let zx = (40 : Int64) in do zr <- (HOLE : Ret Int64); do zs <- ! (int64/add) zr zx; ! (process/exit) zs"),
+        ("twice", "do za <- (HOLE : Ret Int64); do zb <- (HOLE : Ret Int64); do zs <- ! (int64/add) za zb; ! (process/exit) zs"),
+        ("under-a-function", "(fn (zx : Int64) => do zr <- (HOLE : Ret Int64); do zs <- ! (int64/add) zr zx; ! (process/exit) zs) (20 : Int64)"),
+        ("inside-a-block", "begin\n  let zx = (30 : Int64) that\n  do zr <- (HOLE : Ret Int64);\n  do zs <- ! (int64/add) zr zx;\n  ! (process/exit) zs\nend"),
+    ];
+    let mut session = zydeco_session::CompilerSession::default();
+    for (lib, text) in libs {
+        for (ctx, body) in contexts {
+            let mut answers = Vec::new();
+            for (how, hole) in [("import", format!("@[import(\"{}\")] _", dir.join(lib).display())), ("inlined", format!("({text})"))] {
+                let source = format!("{}{}\n", pipeline::prelude(), body.replace("HOLE", &hole));
+                let path = dir.join(format!("root-{how}.zy"));
+                let analyzed = pipeline::analyze_text(&mut session, &path, &source);
+                let got = match (&analyzed.verdict, &analyzed.analysis) {
+                    | (Verdict::Accepted, Some(a)) => pipeline::end_str(&pipeline::run(&mut session, a, b"", &[], 100_000).end),
+                    | (v, _) => v.class(),
+                };
+                answers.push((how, got, source));
+            }
+            let same = answers[0].1 == answers[1].1 && answers[0].1.starts_with("exit");
+            sink.count(&format!("hygiene_{}", if same { "same" } else { "differs" }));
+            if !same {
+                sink.violation(
+                    "c09-import-differs-from-inlining",
+                    serde_json::json!({"imported": lib, "context": ctx, "import": {"outcome": answers[0].1, "source": answers[0].2},
+                        "inlined": {"outcome": answers[1].1, "source": answers[1].2}}),
+                );
+            }
+            sink.case(&format!("# hygiene {lib} {ctx}"), &format!("{} {}", answers[0].1, answers[1].1));
+        }
+    }
+    let _ = std::fs::remove_dir_all(&dir);
 }
